@@ -429,86 +429,11 @@ func ruleC04Sep(e *Env) {
 	if pn == nil {
 		return
 	}
-	site := flow.FnName(pn)
-	// classes: constants compared for equality with the ranged rune, and whether the test is guarded by n.Len() > 0
-	type cls struct {
-		guarded bool
-		skip    bool
-	}
-	got := map[int64]cls{}
-	for _, b := range pn.Blocks {
-		for _, in := range b.Instrs {
-			bo, ok := in.(*ssa.BinOp)
-			if !ok || bo.Op != token.EQL {
-				continue
-			}
-			k, ok := flow.ConstInt(bo.Y)
-			if !ok {
-				continue
-			}
-			if _, isExt := bo.X.(*ssa.Extract); !isExt {
-				continue
-			}
-			guarded := false
-			for d := b; d != nil; d = d.Idom() {
-				id := d.Idom()
-				if id == nil {
-					break
-				}
-				if iff, ok := id.Instrs[len(id.Instrs)-1].(*ssa.If); ok {
-					if c, ok := iff.Cond.(*ssa.BinOp); ok && c.Op == token.GTR {
-						if call, ok := c.X.(*ssa.Call); ok && call.Call.StaticCallee() != nil && strings.HasSuffix(call.Call.StaticCallee().String(), ".Len") {
-							if id.Succs[0] == d || id.Succs[0].Dominates(d) {
-								guarded = true
-							}
-						}
-					}
-				}
-			}
-			// skip ⇔ the true edge leads back to the loop head without writing
-			skip := false
-			for _, r := range *bo.Referrers() {
-				if iff, ok := r.(*ssa.If); ok {
-					t := iff.Block().Succs[0]
-					for blockOnlyJumps(t) && len(t.Succs) == 1 {
-						t = t.Succs[0]
-					}
-					// the loop head is the block that advances the range iterator
-					for _, in3 := range t.Instrs {
-						if _, isNext := in3.(*ssa.Next); isNext {
-							skip = true
-						}
-					}
-				}
-			}
-			got[k] = cls{guarded, skip}
-		}
-	}
-	want := []struct {
-		c       int64
-		name    string
-		guarded bool
-	}{{' ', "space", false}, {'_', "underscore", true}, {0xA0, "no-break space", true}}
-	for _, w := range want {
-		g, ok := got[w.c]
-		switch {
-		case !ok || !g.skip:
-			e.S.Bad(rule, site, w.name, fmt.Sprintf("%s (%q) is not skipped by the text parser", w.name, rune(w.c)), e.Pos(pn), "1"+string(rune(w.c))+"000")
-		case g.guarded != w.guarded:
-			if w.guarded {
-				e.S.Bad(rule, site, w.name, w.name+" is skipped even before the first digit (documented: between digits and before the unit)", e.Pos(pn), "")
-			} else {
-				e.S.Bad(rule, site, w.name, "spaces are skipped only after the first digit: leading spaces / the pretty rendering's separators change the result", e.Pos(pn), " 1")
-			}
-		default:
-			e.S.Ok(rule, site, w.name, fmt.Sprintf("%q skipped %s", rune(w.c), map[bool]string{true: "between digits and before the unit", false: "everywhere in the number, leading included"}[w.guarded]), e.Pos(pn))
-		}
-	}
-	for k, g := range got {
-		if g.skip && k != ' ' && k != '_' && k != 0xA0 {
-			e.S.Bad(rule, site, fmt.Sprintf("%q", rune(k)), fmt.Sprintf("the parser also skips %q, which is not a documented separator", rune(k)), e.Pos(pn), "")
-		}
-	}
+	_ = flow.FnName(pn)
+	// the per-rune transfer function of the scanning loop, over a partition of all rune values × (nothing kept yet /
+	// something kept): space is skipped everywhere, '_' and no-break space only once a digit has been kept, digits
+	// are kept, anything else ends the number
+	runeLoopTable(e, rule, pn)
 	// the separators the formatter can emit under String/PrettyString
 	if as := e.Fn(rule, "size", "appendSeparator"); as != nil {
 		// pretty (non-HTML) separator must be the single space the parser skips: decided by C13.sep; here only the link
@@ -552,4 +477,76 @@ func blockOnlyJumps(b *ssa.BasicBlock) bool {
 		}
 	}
 	return true
+}
+
+// runeLoopTable checks prepareNumber's scanning loop against the documented character classes.
+func runeLoopTable(e *Env, rule string, pn *ssa.Function) {
+	site := flow.FnName(pn)
+	rl, err := e.C.AnalyseRuneLoop(pn, 0)
+	if err != nil {
+		e.S.Unk(rule, site, "scan loop", err.Error(), e.Pos(pn))
+		return
+	}
+	type want struct{ fresh, started flow.RuneOutcome }
+	spec := func(lo, hi int64) (want, string) {
+		switch {
+		case lo == ' ' && hi == ' ':
+			return want{flow.RuneSkip, flow.RuneSkip}, "space"
+		case lo == '_' && hi == '_':
+			return want{flow.RuneStop, flow.RuneSkip}, "underscore"
+		case lo == 0xA0 && hi == 0xA0:
+			return want{flow.RuneStop, flow.RuneSkip}, "no-break space"
+		case lo >= '0' && hi <= '9':
+			return want{flow.RuneKeep, flow.RuneKeep}, "digit"
+		}
+		return want{flow.RuneStop, flow.RuneStop}, "other"
+	}
+	named := map[string]bool{} // classes already reported as not ok
+	okMsg := map[string]string{}
+	badOther := ""
+	for _, iv := range rl.Partition(' ', '_', 0xA0, '0', '9'+1) {
+		w, name := spec(iv[0], iv[1])
+		g0, why0 := rl.Step(iv[0], iv[1], false)
+		g1, why1 := rl.Step(iv[0], iv[1], true)
+		cls := fmt.Sprintf("%s [%#x,%#x]", name, iv[0], iv[1])
+		switch {
+		case g0 == flow.RuneUndecided || g1 == flow.RuneUndecided:
+			e.S.Unk(rule, site, cls, "scan loop not decidable for this class: "+why0+why1, e.Pos(pn))
+			named[name] = true
+		case g0 == w.fresh && g1 == w.started:
+			if name != "other" && !named[name] {
+				okMsg[name] = fmt.Sprintf("%s: %v before the first digit, %v after", name, g0, g1)
+			}
+		default:
+			witness := string(rune(iv[0]))
+			msg := fmt.Sprintf("%s (%q): the parser does %v before the first digit and %v after one; documented %v / %v", name, rune(iv[0]), g0, g1, w.fresh, w.started)
+			switch {
+			case name == "space" && g0 != flow.RuneSkip:
+				msg = "spaces are not skipped before the first digit: leading spaces / the pretty rendering's separators change the result"
+				witness = " 1"
+			case (name == "underscore" || name == "no-break space") && g1 != flow.RuneSkip:
+				msg = fmt.Sprintf("%s (%q) is not skipped by the text parser", name, rune(iv[0]))
+				witness = "1" + string(rune(iv[0])) + "000"
+			case (name == "underscore" || name == "no-break space") && g0 == flow.RuneSkip:
+				msg = name + " is skipped even before the first digit (documented: between digits and before the unit)"
+			case name == "other" && (g0 == flow.RuneSkip || g1 == flow.RuneSkip):
+				msg = fmt.Sprintf("the parser also skips %q, which is not a documented separator", rune(iv[0]))
+			}
+			if name == "other" {
+				badOther = msg
+				e.S.Bad(rule, site, cls, msg, e.Pos(pn), witness)
+			} else {
+				e.S.Bad(rule, site, name, msg, e.Pos(pn), witness)
+				named[name] = true
+			}
+		}
+	}
+	for _, name := range []string{"space", "underscore", "no-break space", "digit"} {
+		if msg, ok := okMsg[name]; ok && !named[name] {
+			e.S.Ok(rule, site, name, msg, e.Pos(pn))
+		}
+	}
+	if badOther == "" {
+		e.S.Ok(rule, site, "other", "every other rune ends the number (the unit starts there)", e.Pos(pn))
+	}
 }
